@@ -8,6 +8,7 @@ import (
 	"errors"
 	"fmt"
 	"io"
+	"runtime"
 	"sync/atomic"
 
 	"github.com/wollac/iota-crypto-demo/pkg/ed25519"
@@ -62,7 +63,7 @@ func runC07(c *core.Ctx) {
 	if c.Thorough() {
 		maxLen = 300
 	}
-	c.Rule = fmt.Sprintf("274 seeds (all-00, all-FF, 256 single-bit, 16 fixed) x every message length 0..%d x contents {00.., FF.., ramp}: private key, public key and signature byte-equal to crypto/ed25519, deterministic, accepted by Verify, Signer wrapper equal; every crypto.Hash 1..19 refused; GenerateKey over scripted readers (full, short reads, failing); non-trivial = distinct (seed, message) pairs signed and compared", maxLen)
+	c.Rule = fmt.Sprintf("all call histories of length <=3 over 11 operations (sign with two keys, verify honest / undecodable R / undecodable A / non-canonical S / short signature, Signer with a refused hash, GenerateKey with a failing reader, NewKeyFromSeed) on one OS thread: every result must equal crypto/ed25519 regardless of what was called before (no state may leak between calls); aliasing: seeds, messages and keys passed as windows of larger buffers are neither written outside their length nor retained; 274 seeds (all-00, all-FF, 256 single-bit, 16 fixed) x every message length 0..%d x contents {00.., FF.., ramp}: private key, public key and signature byte-equal to crypto/ed25519, deterministic, accepted by Verify, Signer wrapper equal; every crypto.Hash 1..19 refused; GenerateKey over scripted readers (full, short reads, failing); non-trivial = distinct (seed, message) pairs signed and compared", maxLen)
 	seeds := c07Seeds()
 	var nontriv atomic.Int64
 	core.Par(len(seeds), func(si int) {
@@ -157,6 +158,8 @@ func runC07(c *core.Ctx) {
 			}
 		}
 	})
+	c07Histories(c, &nontriv)
+	c07Aliasing(c, &nontriv)
 	c.Sample(map[string]interface{}{"seed": "00..00 with bit 37 set", "msg_len": 111, "contents": "ramp"})
 	c.NonTrivial(nontriv.Load())
 	c.SetExhaustive(true)
@@ -166,3 +169,150 @@ func runC07(c *core.Ctx) {
 type c07opts struct{ h crypto.Hash }
 
 func (o *c07opts) HashFunc() crypto.Hash { return o.h }
+
+// c07Histories: the API is stateless, so the result of a call must not depend on the calls made before it. All
+// histories of length <= 3 over an alphabet that includes every early-exit path, on one locked OS thread (pooled or
+// cached scratch state is per P / per goroutine in Go, so the leak has to be provoked on the same thread).
+func c07Histories(c *core.Ctx, nontriv *atomic.Int64) {
+	seedA, seedB := bytes.Repeat([]byte{0x11}, 32), bytes.Repeat([]byte{0xEE}, 32)
+	stdA, stdB := stded.NewKeyFromSeed(seedA), stded.NewKeyFromSeed(seedB)
+	m1, m2 := []byte("history message one"), bytes.Repeat([]byte{0x5c}, 200)
+	sigA := stded.Sign(stdA, m1)
+	pubA := []byte(stdA.Public().(stded.PublicKey))
+	badPoint := make([]byte, 32)
+	badPoint[0] = 2 // y = 2 is not on the curve
+	if stded.Verify(badPoint, m1, sigA) {
+		c.Abort("y=2 unexpectedly decodes")
+		return
+	}
+	sigBadR := append(append([]byte{}, badPoint...), sigA[32:]...)
+	sigBadS := append(append([]byte{}, sigA[:32]...), bytes.Repeat([]byte{0xFF}, 32)...)
+	type op struct {
+		name string
+		run  func() string // returns a fingerprint of the observable result
+		want string
+	}
+	hexs := func(b []byte) string { return fmt.Sprintf("%x", b) }
+	ops := []op{
+		{"Sign(A,m1)", func() string { return hexs(ed25519.Sign(ed25519.NewKeyFromSeed(seedA), m1)) }, hexs(stded.Sign(stdA, m1))},
+		{"Sign(B,m2)", func() string { return hexs(ed25519.Sign(ed25519.NewKeyFromSeed(seedB), m2)) }, hexs(stded.Sign(stdB, m2))},
+		{"Verify(honest)", func() string { return fmt.Sprint(ed25519.Verify(pubA, m1, sigA)) }, "true"},
+		{"Verify(undecodable R)", func() string { return fmt.Sprint(ed25519.Verify(pubA, m1, sigBadR)) }, "false"},
+		{"Verify(undecodable A)", func() string { return fmt.Sprint(ed25519.Verify(badPoint, m1, sigA)) }, "false"},
+		{"Verify(S >= L)", func() string { return fmt.Sprint(ed25519.Verify(pubA, m1, sigBadS)) }, "false"},
+		{"Verify(63-byte signature)", func() string { return fmt.Sprint(ed25519.Verify(pubA, m1, sigA[:63])) }, "false"},
+		{"Verify(other message)", func() string { return fmt.Sprint(ed25519.Verify(pubA, m2, sigA)) }, "false"},
+		{"Signer(refused hash)", func() string {
+			s, err := ed25519.NewKeyFromSeed(seedA).Sign(nil, m1, crypto.SHA512)
+			return fmt.Sprint(s == nil, err != nil)
+		}, "true true"},
+		{"GenerateKey(failing reader)", func() string {
+			p, k, err := ed25519.GenerateKey(&c07reader{data: []byte{1, 2, 3}, err: errors.New("boom")})
+			return fmt.Sprint(p == nil, k == nil, err != nil)
+		}, "true true true"},
+		{"NewKeyFromSeed(B)", func() string { return hexs(ed25519.NewKeyFromSeed(seedB)) }, hexs(stdB)},
+	}
+	done := make(chan struct{})
+	var seqs int64
+	go func() {
+		defer close(done)
+		runtime.LockOSThread()
+		defer runtime.UnlockOSThread()
+		var rec func(hist []int)
+		rec = func(hist []int) {
+			if len(hist) > 0 {
+				seqs++
+				// replay the history; the last call is the one judged (earlier prefixes were judged as shorter histories)
+				var got string
+				var p interface{}
+				for i, o := range hist {
+					if i == len(hist)-1 {
+						p = core.Catch(func() { got = ops[o].run() })
+					} else {
+						core.Catch(func() { ops[o].run() })
+					}
+				}
+				last := ops[hist[len(hist)-1]]
+				if p != nil || got != last.want {
+					names := []string{}
+					for _, o := range hist {
+						names = append(names, ops[o].name)
+					}
+					c.Violate("C07/history/"+last.name, fmt.Sprintf("after %v the call %s gives %q (panic %v); crypto/ed25519 / the specification give %q regardless of history", names[:len(names)-1], last.name, got, p, last.want), names, "", nil)
+				}
+			}
+			if len(hist) == 3 {
+				return
+			}
+			for o := range ops {
+				rec(append(append([]int{}, hist...), o))
+			}
+		}
+		rec(nil)
+	}()
+	<-done
+	c.Eval(seqs)
+	nontriv.Add(seqs)
+	c.Set("call_histories", seqs)
+}
+
+// c07Aliasing: arguments are windows of larger buffers; nothing outside the window may be written and nothing of the
+// window may be retained by the result.
+func c07Aliasing(c *core.Ctx, nontriv *atomic.Int64) {
+	for i := 0; i < 8; i++ {
+		big := make([]byte, 160)
+		for k := range big {
+			big[k] = byte(k*7 + i)
+		}
+		keep := append([]byte{}, big...)
+		off := i * 4
+		seed := big[off : off+32] // capacity reaches far beyond the seed
+		std := stded.NewKeyFromSeed(append([]byte{}, seed...))
+		priv := ed25519.NewKeyFromSeed(seed)
+		c.Eval(1)
+		nontriv.Add(1)
+		if !bytes.Equal(big, keep) {
+			c.Violate("C07/aliasing/seed-buffer-written", "NewKeyFromSeed wrote to the buffer its seed argument is a window of", i, "", nil)
+			copy(big, keep)
+		}
+		for k := range big {
+			big[k] = 0 // the caller wipes its buffer
+		}
+		if !bytes.Equal(priv, std) {
+			c.Violate("C07/aliasing/key-retains-seed-buffer", fmt.Sprintf("the private key changed to %x when the caller wiped the seed buffer", []byte(priv)), i, "", nil)
+			continue
+		}
+		msgBuf := make([]byte, 300)
+		for k := range msgBuf {
+			msgBuf[k] = byte(k + i)
+		}
+		keepM := append([]byte{}, msgBuf...)
+		msg := msgBuf[10 : 10+i*13]
+		sig := ed25519.Sign(priv, msg)
+		if !bytes.Equal(msgBuf, keepM) || !bytes.Equal(priv, std) {
+			c.Violate("C07/aliasing/sign-writes-arguments", "Sign modified the message buffer or the key", i, "", nil)
+		}
+		sig2 := ed25519.Sign(priv, msg)
+		sig2[0] ^= 0xFF
+		if !bytes.Equal(sig, stded.Sign(std, msg)) {
+			c.Violate("C07/aliasing/signatures-share-memory", "a signature changed when another signature was modified", i, "", nil)
+		}
+		pub := priv.Public().(ed25519.PublicKey)
+		pub[0] ^= 0xFF
+		sd := priv.Seed()
+		sd[0] ^= 0xFF
+		if !bytes.Equal(priv, std) {
+			c.Violate("C07/aliasing/accessors-share-memory", "modifying Public() or Seed() results changed the private key", i, "", nil)
+		}
+		// GenerateKey from a reader whose Read buffer is observed afterwards
+		gp, gk, err := ed25519.GenerateKey(&c07reader{data: append([]byte{}, keep[off:off+40]...)})
+		if err != nil || !bytes.Equal(gk, std) || !bytes.Equal(gp, std[32:]) {
+			c.Violate("C07/aliasing/generate", "GenerateKey differs", i, "", nil)
+		} else {
+			gp[1] ^= 1
+			if !bytes.Equal(gk, std) {
+				c.Violate("C07/aliasing/generate-shares-memory", "public and private key returned by GenerateKey share memory", i, "", nil)
+			}
+		}
+	}
+}
